@@ -33,13 +33,15 @@ PROPERTY = 'C14'
 LEVEL = 'exploration'
 RULE = ('toy force field: 1-3 residue templates (2-5 atoms, tree + optional ring, unique atom names per template) and 2-5 '
         'modifications (1-3 anchors by name, 1-4 added atoms by element from {H,O,P}; grown op by op so they stay connected; '
-        'deliberately: sub-pattern of an earlier modification, shared first anchor, spanning two residues, added atoms on '
-        'different anchors, replace attributes incl. renames of added atoms and anchors) written as .ff text and parsed by '
-        'read_ff; molecule of 1-5 residues, 1-4 ground-truth instances attached (optionally bonds between added atoms of '
-        'different instances), in ~30% one perturbation (unexplained atom on a template atom / on an added atom / floating, '
-        'extra bond inside a placement, extra bond to an outside template atom, wrong element, missing added atom); flags set '
-        'directly (75%) or by the real RepairGraph (25%).  Non-trivial = a connected group of flagged atoms holds added atoms of '
-        '>= 2 ground-truth instances, or some flagged atom lies in >= 2 different candidate placements (overlapping candidates).')
+        'deliberately: sub-pattern of an earlier modification, shared first anchor, spanning two residues (bridge / ring / context '
+        'anchor), added atoms on different anchors, replace attributes incl. renames of added atoms and of anchors, atomname null) '
+        'written as .ff text and parsed by read_ff; molecule of 1-5 residues, 1-4 ground-truth instances attached (at most 6 flagged '
+        'atoms in total because the implementation is factorial in the size of a group it cannot cover; optionally bonds between '
+        'added atoms of different instances), in ~40% of the draws one perturbation (unexplained atom on a template atom / on an '
+        'added atom / floating, extra bond inside a placement, extra bond to an outside template atom, wrong element, missing added '
+        'atom); flags set directly (2/3) or by the real RepairGraph (1/3).  Non-trivial = a connected group of flagged atoms holds '
+        'added atoms of >= 2 ground-truth instances, or some flagged atom lies in >= 2 different candidate placements '
+        '(overlapping candidates).')
 ASSUMPTIONS = [
     'anchors are matched on the atom names the molecule has when CanonicalizeModifications starts (renames by `replace` apply afterwards)',
     'every added atom carries the resid of a residue that holds one of the anchors of its modification instance (what RepairGraph produces for real input)',
@@ -55,6 +57,10 @@ PTM_ELEMS = ['H', 'O', 'P']
 TYPE_LETTERS = 'ABC'
 MAX_PTM = 4
 MAX_ANCHORS = 3
+MAX_FLAGGED = 6
+PERTURBATIONS = ['extra-atom-on-template', 'extra-atom-on-template', 'extra-atom-on-added', 'floating-atom',
+                 'bond-inside-placement', 'bond-inside-placement', 'bond-inside-placement',
+                 'bond-to-outside-template-atom', 'wrong-element', 'missing-atom']
 CHECKED_ATTRS = ('element', 'resid', 'resname', 'chain')
 REPLACE_ATTRS = ('atype', 'charge')
 D1_BUCKET = 'crash:AssertionError:vermouth/processors/canonicalize_modifications.py:identify_ptms'
@@ -95,6 +101,10 @@ def _template(blocks, types):
     return graph
 
 
+def _span_mode(spec):
+    return ['ring', 'ring', 'bridge', 'bridge', 'bridge', 'bridge', 'bridge', 'context'][spec['span_mode'] % 8]
+
+
 def _grow_mod(spec, blocks, types, a0):
     """Applies the op list; returns (nodes, edges).  nodes: dicts with kind
     'anchor' (res, atom) or 'ptm' (element)."""
@@ -119,8 +129,13 @@ def _grow_mod(spec, blocks, types, a0):
         # make the modification really span: bridge over the first added atom,
         # or take the bonded pair tail/head as anchors
         current = anchors()
-        if spec['span_mode'] % 2 == 0 and a0 == (0, len(blocks[types[0]]['names']) - 1):
+        mode = _span_mode(spec)
+        if mode in ('ring', 'context') and a0 == (0, len(blocks[types[0]]['names']) - 1):
+            # bonded pair tail/head as anchors; the first added atom sits on
+            # both ('ring') or on the tail only ('context')
             nodes.append({'kind': 'anchor', 'res': 1, 'atom': 0})
+            if mode == 'ring':
+                edges.add((1, 2))
         else:
             cands = sorted(n for n in template if n[0] == 1 and n not in current)
             pick = cands[first[1] % len(cands)]
@@ -132,7 +147,15 @@ def _grow_mod(spec, blocks, types, a0):
         alist = anchors()
         if code <= 3:
             if len(plist) < MAX_PTM:
-                add_ptm(x % len(nodes), elem)
+                # mostly grow from an added atom or from the first anchor, so
+                # that the added atoms of one modification rarely fall apart
+                # into groups attached to different residues
+                if code <= 1:
+                    add_ptm(plist[x % len(plist)], elem)
+                elif code == 2:
+                    add_ptm(0, elem)
+                else:
+                    add_ptm(x % len(nodes), elem)
         elif code == 4:
             if len(alist) < MAX_ANCHORS:
                 cands = sorted(set(nb for a in alist for nb in template[a]) - set(alist))
@@ -150,10 +173,28 @@ def _grow_mod(spec, blocks, types, a0):
             p = plist[x % len(plist)]
             others = [i for i in range(len(nodes)) if i != p
                       and (min(i, p), max(i, p)) not in edges]
+            if code == 6:
+                # ring among the added atoms rather than a second bond to an anchor
+                others = [i for i in others if nodes[i]['kind'] == 'ptm'] or others
             if others:
                 o = others[y % len(others)]
                 edges.add((min(o, p), max(o, p)))
     return nodes, edges, template
+
+
+def _ptm_groups(nodes, edges):
+    """Connected groups of added atoms of a modification with the sorted list
+    of residues (0/1) of the anchors bonded to each."""
+    graph = nx.Graph()
+    ptm = [i for i, n in enumerate(nodes) if n['kind'] == 'ptm']
+    graph.add_nodes_from(ptm)
+    graph.add_edges_from((a, b) for a, b in edges if a in ptm and b in ptm)
+    out = []
+    for comp in sorted(nx.connected_components(graph), key=min):
+        key = sorted(nodes[b if a in comp else a]['res'] for a, b in edges
+                     if (a in comp) != (b in comp))
+        out.append((tuple(key), comp))
+    return out
 
 
 def _finish_mod(index, spec, blocks, types, nodes, edges, template):
@@ -176,6 +217,18 @@ def _finish_mod(index, spec, blocks, types, nodes, edges, template):
             if i < j and template.has_edge((nodes[i]['res'], nodes[i]['atom']),
                                            (nodes[j]['res'], nodes[j]['atom'])):
                 edges.add((i, j))
+    if spec['split'] % 10:
+        # Unless asked for (1 in 10), the added atoms of one modification do not
+        # fall apart into groups whose anchors lie in different residue lists:
+        # such groups are joined by a bond between added atoms.
+        while True:
+            groups = _ptm_groups(nodes, edges)
+            keys = sorted(set(k for k, _ in groups))
+            if len(keys) < 2:
+                break
+            first = min(min(g) for k, g in groups if k == keys[0])
+            second = min(min(g) for k, g in groups if k == keys[1])
+            edges.add((min(first, second), max(first, second)))
     graph = nx.Graph()
     graph.add_nodes_from(range(len(nodes)))
     graph.add_edges_from(edges)
@@ -240,7 +293,7 @@ def resolve_mods(case, blocks):
         if spec['span']:
             types.append(spec['t2'] % ntypes)
         a0 = (0, spec['a0'] % len(blocks[types[0]]['names']))
-        if spec['span'] and spec['span_mode'] % 2 == 0:
+        if spec['span'] and _span_mode(spec) != 'bridge':
             a0 = (0, len(blocks[types[0]]['names']) - 1)
         grow = spec
         if kind in (3, 4) and mods:
@@ -285,7 +338,7 @@ def resolve_mods(case, blocks):
             if not spec['span']:
                 types = [base_types[0]]
                 a0 = base_a0
-            elif spec['span_mode'] % 2 == 1:
+            elif _span_mode(spec) == 'bridge':
                 types = [base_types[0], types[1]]
                 a0 = base_a0
         nodes, edges, template = _grow_mod(grow, blocks, types, a0)
@@ -366,7 +419,17 @@ def build_force_field(blocks, mods):
 def build_molecule(case, blocks, mods, ff):
     """Returns (molecule, info).  info: ground truth and bookkeeping."""
     ntypes = len(blocks)
-    restypes = [r % ntypes for r in case['residues']]
+    drawn = [r % ntypes for r in case['residues']]
+    # residue sequence: make room for the modifications the instances ask for,
+    # then fill up with the drawn residue types
+    restypes = []
+    for spec in case['instances']:
+        wanted = mods[spec[0] % len(mods)]['types']
+        have = any(restypes[p:p + len(wanted)] == wanted for p in range(len(restypes)))
+        if not have and len(restypes) + len(wanted) <= 5:
+            restypes += wanted
+    while len(restypes) < len(drawn):
+        restypes.append(drawn[len(restypes)])
     resids = []
     resid = case['resid0']
     for p in range(len(restypes)):
@@ -417,36 +480,50 @@ def build_molecule(case, blocks, mods, ff):
     anchor_users = {}    # node -> number of instances using it as anchor
     renamed = set()      # anchors renamed by some instance
     skipped = 0
-    for spec in case['instances']:
-        m = spec[0] % len(mods)
-        mod = mods[m]
+    pert = case['perturb']
+    pert_kind = PERTURBATIONS[pert[0] % len(PERTURBATIONS)] if pert is not None else None
+    # The implementation's search is factorial in the number of flagged atoms of
+    # a group it cannot cover (measured: 8 atoms 4 s, 9 atoms 40 s), so the total is capped.
+    cap = MAX_FLAGGED - (1 if pert_kind in ('extra-atom-on-template', 'extra-atom-on-added', 'floating-atom') else 0)
+
+    def sites_of(mod):
         span = len(mod['types']) == 2
-        sites = [p for p in range(len(restypes))
-                 if restypes[p] == mod['types'][0]
-                 and (not span or (p + 1 < len(restypes) and restypes[p + 1] == mod['types'][1]))]
-        if not sites:
+        return [p for p in range(len(restypes))
+                if restypes[p] == mod['types'][0]
+                and (not span or (p + 1 < len(restypes) and restypes[p + 1] == mod['types'][1]))]
+
+    for spec in case['instances']:
+        placed = False
+        for shift in range(len(mods)):
+            m = (spec[0] + shift) % len(mods)
+            mod = mods[m]
+            nptm = sum(1 for n in mod['nodes'] if n['kind'] == 'ptm')
+            sites = sites_of(mod)
+            if not sites or len(flagged) + nptm > cap:
+                continue
+            p0 = sites[spec[1] % len(sites)]
+            anchors = {i: node_of[(p0 + n['res'], n['atom'])]
+                       for i, n in enumerate(mod['nodes']) if n['kind'] == 'anchor'}
+            renames = [anchors[i] for i in anchors if 'atomname' in mod['replace'].get(i, {})]
+            if (any(node in renamed for node in anchors.values())
+                    or any(anchor_users.get(node, 0) for node in renames)):
+                # an anchor that gets renamed belongs to one instance only
+                continue
+            mapping = dict(anchors)
+            for i, n in enumerate(mod['nodes']):
+                if n['kind'] == 'ptm':
+                    mapping[i] = add_flagged(n['element'], n['atomname'], p0 + n['res'])
+            for a, b in mod['edges']:
+                if mod['nodes'][a]['kind'] == 'ptm' or mod['nodes'][b]['kind'] == 'ptm':
+                    mol.add_edge(mapping[a], mapping[b])
+            for node in anchors.values():
+                anchor_users[node] = anchor_users.get(node, 0) + 1
+            renamed.update(renames)
+            instances.append({'mod': m, 'map': mapping})
+            placed = True
+            break
+        if not placed:
             skipped += 1
-            continue
-        p0 = sites[spec[1] % len(sites)]
-        anchors = {i: node_of[(p0 + n['res'], n['atom'])]
-                   for i, n in enumerate(mod['nodes']) if n['kind'] == 'anchor'}
-        renames = [anchors[i] for i in anchors if 'atomname' in mod['replace'].get(i, {})]
-        if (any(node in renamed for node in anchors.values())
-                or any(anchor_users.get(node, 0) for node in renames)):
-            # an anchor that gets renamed belongs to one instance only
-            skipped += 1
-            continue
-        mapping = dict(anchors)
-        for i, n in enumerate(mod['nodes']):
-            if n['kind'] == 'ptm':
-                mapping[i] = add_flagged(n['element'], n['atomname'], p0 + n['res'])
-        for a, b in mod['edges']:
-            if mod['nodes'][a]['kind'] == 'ptm' or mod['nodes'][b]['kind'] == 'ptm':
-                mol.add_edge(mapping[a], mapping[b])
-        for node in anchors.values():
-            anchor_users[node] = anchor_users.get(node, 0) + 1
-        renamed.update(renames)
-        instances.append({'mod': m, 'map': mapping})
 
     # bonds between added atoms of different instances keep every placement induced
     cross = 0
@@ -465,56 +542,57 @@ def build_molecule(case, blocks, mods, ff):
             cross += 1
 
     perturbed = None
-    spec = case['perturb']
-    if spec is not None:
-        kind, x, y, z = spec
-        kind %= 8
+    if pert is not None:
+        _, x, y, z = pert
+        kind = pert_kind
         template_nodes = list(range(n_template))
-        if kind in (0, 1) or (kind >= 2 and not instances):
+        if kind == 'extra-atom-on-template' or not instances:
             # unexplained atom on a template atom
             target = template_nodes[x % n_template]
             p = resids.index(mol.nodes[target]['resid'])
             new = add_flagged(PTM_ELEMS[y % len(PTM_ELEMS)], 'UNK', p)
             mol.add_edge(target, new)
             perturbed = 'extra-atom-on-template'
-        elif kind == 2:
+        elif kind == 'extra-atom-on-added':
             target = flagged[x % len(flagged)]
             p = resids.index(mol.nodes[target]['resid'])
             new = add_flagged(PTM_ELEMS[y % len(PTM_ELEMS)], 'UNK', p)
             mol.add_edge(target, new)
-            perturbed = 'extra-atom-on-added'
-        elif kind == 3:
+            perturbed = kind
+        elif kind == 'floating-atom':
             add_flagged(PTM_ELEMS[y % len(PTM_ELEMS)], 'UNK', x % len(restypes))
-            perturbed = 'floating-atom'
-        elif kind == 4:
-            inst = instances[x % len(instances)]
-            nodes_i = sorted(inst['map'].values())
-            ptm_i = [v for v in nodes_i if v in flagged]
-            pairs = [(a, b) for a in ptm_i for b in nodes_i if a != b and not mol.has_edge(a, b)
-                     and (b not in ptm_i or a < b)]
-            if pairs:
-                a, b = pairs[y % len(pairs)]
-                mol.add_edge(a, b)
-                perturbed = 'bond-inside-placement'
-        elif kind == 5:
+            perturbed = kind
+        elif kind == 'bond-inside-placement':
+            for shift in range(len(instances)):
+                inst = instances[(x + shift) % len(instances)]
+                nodes_i = sorted(inst['map'].values())
+                ptm_i = [v for v in nodes_i if v in flagged]
+                pairs = [(a, b) for a in ptm_i for b in nodes_i if a != b and not mol.has_edge(a, b)
+                         and (b not in ptm_i or a < b)]
+                if pairs:
+                    a, b = pairs[y % len(pairs)]
+                    mol.add_edge(a, b)
+                    perturbed = kind
+                    break
+        elif kind == 'bond-to-outside-template-atom':
             inst = instances[x % len(instances)]
             ptm_i = sorted(v for v in inst['map'].values() if v in flagged)
             a = ptm_i[y % len(ptm_i)]
             resid_a = mol.nodes[a]['resid']
             outside = [v for v in template_nodes if v not in inst['map'].values()
-                       and mol.nodes[v]['resid'] == resid_a]
+                       and mol.nodes[v]['resid'] == resid_a and not mol.has_edge(a, v)]
             if outside:
                 mol.add_edge(a, outside[z % len(outside)])
-                perturbed = 'bond-to-outside-template-atom'
-        elif kind == 6:
+                perturbed = kind
+        elif kind == 'wrong-element':
             target = flagged[x % len(flagged)]
             mol.nodes[target]['element'] = 'F' if y % 2 else [e for e in PTM_ELEMS if e != mol.nodes[target]['element']][z % 2]
-            perturbed = 'wrong-element'
-        elif kind == 7:
+            perturbed = kind
+        elif kind == 'missing-atom':
             target = flagged[x % len(flagged)]
             mol.remove_node(target)
             flagged.remove(target)
-            perturbed = 'missing-atom'
+            perturbed = kind
     info = {'instances': instances, 'flagged': sorted(flagged), 'perturbed': perturbed,
             'skipped': skipped, 'cross': cross, 'n_template': n_template,
             'renamed_anchors': sorted(renamed)}
@@ -864,7 +942,7 @@ def run_case(case):
         if rename_conflict:
             classes.append('clean-but-renamed-anchor-shared')
         elif removed:
-            raise Violation('removed-though-explained',
+            raise Violation('removed-though-explained:' + _removal_shape(removed, truth, mods, comps, comp_of_atom, pre_nodes),
                             'every flagged atom belongs to an attached instance of a known modification (%s), yet atoms %s were removed: %r'
                             % (', '.join(mods[m]['name'] for m, _ in truth),
                                ', '.join('%d:%s' % (a, names[a]) for a in sorted(removed)), logs.messages()))
@@ -925,6 +1003,31 @@ def run_case(case):
     return Outcome(classes, multi_group or overlap)
 
 
+def _removal_shape(removed, truth, mods, comps, comp_of_atom, pre_nodes):
+    """Sub-bucket for a completeness failure: what is special about the
+    instances that lost atoms."""
+    def key(cidx):
+        return tuple(sorted(pre_nodes[a]['resid'] for a in comps[cidx][1]))
+    shapes = set()
+    for m, mapping in truth:
+        ptm = ptm_atoms_of(mods, (m, mapping))
+        if not ptm & set(removed):
+            continue
+        cidxs = sorted(set(comp_of_atom[a] for a in ptm))
+        keys = set(key(c) for c in cidxs)
+        bonded_residues = set(r for k in keys for r in k)
+        anchor_residues = set(pre_nodes[a]['resid'] for r, a in mapping.items()
+                              if mods[m]['nodes'][r]['kind'] == 'anchor')
+        if len(keys) > 1:
+            shapes.add('added-atoms-in-groups-with-different-anchor-residues')
+        elif anchor_residues - bonded_residues:
+            shapes.add('anchor-in-residue-not-bonded-to-added-atoms')
+    if not shapes:
+        # collateral: removed together with such an instance in the same residue?
+        return 'other'
+    return sorted(shapes)[0]
+
+
 def _differently_keyed_groups_share_residue(comps, pre_nodes):
     """Two connected groups of flagged atoms whose anchors lie in different
     (multi)sets of residues, while some residue holds anchors of both."""
@@ -945,13 +1048,14 @@ def _run(case):
 # ---------------------------------------------------------------------------
 # known finding matcher
 
-def _match_d1(params, part_name, case, violation):
-    """AssertionError in identify_ptms when two groups of flagged atoms with
-    different anchor-residue lists share a residue."""
-    return violation.bucket == D1_BUCKET
+def _match_bucket(params, part_name, case, violation):
+    """Known findings of this check are told apart by their bucket: the two
+    crashes have distinct crash buckets, the completeness failures carry the
+    shape of the instance that lost atoms."""
+    return violation.bucket == params.get('bucket')
 
 
-MATCHERS = {'c14_assert_groups_share_residue': _match_d1}
+MATCHERS = {'c14_bucket': _match_bucket}
 
 
 # ---------------------------------------------------------------------------
@@ -970,17 +1074,18 @@ def _strategy(tier):
         'kind': st.integers(0, 5),
         't1': st.integers(0, 2), 't2': st.integers(0, 2),
         'span': st.sampled_from([False, False, False, True]),
-        'span_mode': st.integers(0, 1),
-        'a0': small, 'base': st.integers(0, 4), 'drop': st.integers(0, 2),
+        'span_mode': st.integers(0, 7),
+        'a0': small, 'base': st.integers(0, 4), 'drop': st.integers(0, 2), 'split': st.integers(0, 9),
         'ops': st.lists(op, min_size=1, max_size=6),
         'names': st.lists(st.integers(0, 3), min_size=1, max_size=4),
         'replace': st.lists(st.sampled_from([0, 0, 0, 1, 4, 5, 6, 7, 8, 9, 10, 11]), min_size=1, max_size=6),
     })
     instance = st.tuples(st.integers(0, 4), small).map(list)
-    perturb = st.one_of(st.none(), st.none(), st.none(), st.none(), st.none(), st.none(), st.none(),
-                        st.tuples(st.integers(0, 7), small, small, small).map(list),
-                        st.tuples(st.integers(0, 7), small, small, small).map(list),
-                        st.tuples(st.integers(0, 7), small, small, small).map(list))
+    perturb = st.one_of(st.none(), st.none(), st.none(), st.none(), st.none(), st.none(),
+                        st.tuples(st.integers(0, 9), small, small, small).map(list),
+                        st.tuples(st.integers(0, 9), small, small, small).map(list),
+                        st.tuples(st.integers(0, 9), small, small, small).map(list),
+                        st.tuples(st.integers(0, 9), small, small, small).map(list))
     return st.fixed_dictionaries({
         'blocks': st.lists(block, min_size=1, max_size=3),
         'mods': st.lists(mod, min_size=2, max_size=5),
@@ -988,11 +1093,11 @@ def _strategy(tier):
         'resid0': st.integers(1, 40),
         'gaps': st.lists(st.sampled_from([0, 0, 0, 1, 3]), min_size=1, max_size=4),
         'instances': st.lists(instance, min_size=1, max_size=4),
-        'cross': st.one_of(st.just([]), st.just([]),
+        'cross': st.one_of(st.just([]),
                            st.lists(st.tuples(st.integers(0, 3), small, st.integers(0, 3), small).map(list),
                                     min_size=1, max_size=2)),
         'perturb': perturb,
-        'flagging': st.sampled_from(['direct', 'direct', 'direct', 'repair']),
+        'flagging': st.sampled_from(['direct', 'direct', 'repair']),
         'false_flags': st.booleans(),
         'input_names': st.integers(0, 2),
     })
@@ -1001,5 +1106,7 @@ def _strategy(tier):
 PARTS = [
     Part('cover', _run, strategy=_strategy,
          examples={'quick': 2400, 'thorough': 50000},
-         floors={}),
+         floors={'clean': 0.35, 'overlapping-candidates': 0.12, 'group-with>=2-instances': 0.01, 'instances>=2': 0.12,
+                 'spanning-instance': 0.04, 'flags-by-RepairGraph': 0.06, 'some-removed': 0.04, 'shared-anchor': 0.06,
+                 'instance-with-replace': 0.15, 'perturbed:bond-inside-placement': 0.008}),
 ]
